@@ -317,7 +317,9 @@ func run(tier string, shard, nsh int, res *ev.Result) {
 						continue
 					}
 					for _, l := range lengths {
-						h[0], h[1] = 0x12, byte(un)^0x34
+						// the transaction id changes from one call to the next while function and unit stay the same (an answer
+						// remembered from an earlier call with the same function / unit must not come back)
+						h[0], h[1] = 0x12^byte(l*7), byte(un)^0x34^byte(l)
 						h[2], h[3] = byte(proto>>8), byte(proto)
 						h[4], h[5] = byte(l>>8), byte(l)
 						h[6], h[7] = un, byte(fc)
